@@ -149,6 +149,11 @@ pub fn run(tier: Tier) -> i32 {
             v
         }, false),
         ("marker-terminated", vec![Sym::L(9), Sym::L(8), Sym::M(2, 4), Sym::S, Sym::E], true),
+        ("far-match", {
+            let mut v: Vec<Sym> = (0..40u8).map(|i| Sym::L(i.wrapping_mul(7).wrapping_add(3))).collect();
+            v.extend([Sym::M(35, 10), Sym::L(1), Sym::M(50, 6)]);
+            v
+        }, false),
     ];
     let psets: Vec<Params> = vec![
         Params { lzma2: false, lc: 3, lp: 0, pb: 2, dict: 4096, size: Some(9) },
@@ -161,10 +166,17 @@ pub fn run(tier: Tier) -> i32 {
         let mut sizes: Vec<Option<u64>> = vec![None];
         for (name, prog, _marker) in &progs {
             let e = enc::encode(p.lc, p.lp, p.pb, p.dict as u64, prog);
-            assert!(e.bad.is_none(), "{}", name);
+            if e.bad.is_some() {
+                continue; // e.g. the far-match stream on the 8-byte dictionary
+            }
             al.push((format!("{} [{}] ({} bytes out)", name, prog_str(prog), e.expect.len()), RawOp::Dec(Hex(e.payload.clone()))));
-            if *name == "lits" || *name == "4reps" {
+            if *name == "lits" || *name == "4reps" || *name == "far-match" {
                 sizes.push(Some(e.expect.len() as u64));
+            }
+            if *name == "lits" {
+                // failures in which not a single symbol completes
+                al.push(("only the 5 coder start bytes".into(), RawOp::Dec(Hex(e.payload[..5].to_vec()))));
+                al.push(("first symbol is a rep match on an empty window".into(), RawOp::Dec(Hex(vec![0x00, 0xFF, 0xFF, 0xFF, 0xFF, 0xFF, 0xFF, 0xFF, 0xFF]))));
             }
             if *name == "4reps" {
                 let mut t = e.payload.clone();
